@@ -343,7 +343,12 @@ func (c *crashCase) Run() (sx.V, error) {
 	// every resource can be fetched and cached again
 	heal := func(k caching.Key, p sx.V) sx.V {
 		if p.N(0).Str() == "hit" {
-			return sx.L(sx.S("served"))
+			// ... and an entry that survived can be refreshed with a new body (over whatever the killed operation left
+			// next to it, a .tmp file for one)
+			if err := c14Fill(s, k, true, "refreshed", true, 64, nil); err != nil {
+				return sx.L(sx.S("refresh-failed"), sx.S(err.Error()))
+			}
+			return sx.L(sx.S("served"), probeKey(s, k))
 		}
 		if err := c14Fill(s, k, false, "refetched", true, 64, nil); err != nil {
 			return sx.L(sx.S("refill-failed"), sx.S(err.Error()))
